@@ -477,7 +477,7 @@ func c16Run(a arrangement) c16Outcome {
 		if err != nil {
 			out.canon = "READBACK-ERROR " + err.Error()
 		} else {
-			out.canon = extract.Canon(s, extract.CanonOpts{FillDirDefaults: true})
+			out.canon = extract.Canon(s, extract.CanonOpts{FillDirDefaults: true, AsWritten: true})
 		}
 		res := root.ResolveString(c17FullQuery, "Full", map[string]interface{}{"dep": true})
 		out.intro = ref.Render(sortIntro(ref.Canon(res["data"]))) + " errors=" + fmt.Sprint(res["errors"])
